@@ -40,8 +40,18 @@ def realise(cin, variant):
         free = [k for k in range(1, S - 1) if k not in omiss]
         obs[free[len(free) // 3]] = -5.0
         obs[free[len(free) // 2]] = -1.0
-    out = {"res": "ok", "dq": [], "warn": []}
+    out = {"res": "ok", "dq": [], "warn": [], "dqSeries": []}
     role, cls = cin["role"], cin["cls"]
+    lead, trail = cin.get("lead", 0), cin.get("trail", 0)
+    if lead or trail:
+        # days outside the span: present in the frame, with temperature but without usage; both entry points are exercised
+        entry = "both"
+        days = pd.date_range(days[0] - pd.Timedelta(days=lead), periods=S + lead + trail, freq="D")
+        T = np.concatenate([50.0 + rng.normal(0, 3, lead), T, 50.0 + rng.normal(0, 3, trail)])
+        obs = np.concatenate([np.full(lead, np.nan), obs, np.full(trail, np.nan)])
+        omiss = {k + lead for k in omiss}
+        tmiss = {k + lead for k in tmiss}
+        S = S + lead + trail
     try:
         if cls == "hourly":
             idx = pd.date_range(days[0], days[-1] + pd.Timedelta(hours=23), freq="h")
@@ -64,7 +74,13 @@ def realise(cin, variant):
             om[list(omiss)] = np.nan
             fam = {"daily": ("DailyBaselineData", "DailyReportingData"), "billing": ("BillingBaselineData", "BillingReportingData")}[cls]
             C = getattr(em, fam[0] if role == "baseline" else fam[1])
-            if entry == "series":
+            if entry == "both":
+                meter = pd.Series(om, index=days, name="observed")
+                temp = pd.Series(Tm, index=days, name="temperature")
+                ser = C.from_series(meter, temp, is_electricity_data=cin["electric"])
+                out["dqSeries"] = sorted(w.qualified_name for w in ser.disqualification)
+                obj = C(pd.DataFrame({"temperature": Tm, "observed": om}, index=days), is_electricity_data=cin["electric"])
+            elif entry == "series":
                 meter = pd.Series(om, index=days, name="observed")
                 temp = pd.Series(Tm, index=days, name="temperature")
                 obj = C.from_series(meter, temp, is_electricity_data=cin["electric"])
@@ -76,6 +92,8 @@ def realise(cin, variant):
         return out
     out["dq"] = sorted(w.qualified_name for w in obj.disqualification)
     out["warn"] = sorted(w.qualified_name for w in obj.warnings)
+    if not (lead or trail):
+        out["dqSeries"] = list(out["dq"])
     return out
 
 
